@@ -167,12 +167,14 @@ def run(tier):
         if k not in seen:
             seen.add(k)
             uniq.append(c)
-    acc, rejected, leftover = accepted(uniq)
+    mism = []
+    acc, rejected, leftover = accepted(uniq, mism)
     log("[C01] %d candidates, %d accepted by the macro, %d rejected, %d with unconsumed helper attribute" % (
         len(uniq), len(acc), rejected, leftover))
     programs = []
     for i, (cand, t) in enumerate(acc):
         programs.append(build_program("p%05d" % i, t, cand[2], cand[3], candidate_desc(*cand), sig_of(cand)))
+    gen_cmp.report_mismatches(PID, mism, out)
     e3x = e3_extras.summary(e3_extras.c01_selection(out))
     stats = run_batches(programs)
     counts = kani_runner.triage(PID, programs, out)
